@@ -49,13 +49,7 @@ template <class A> static Verdict check_type(const std::string &text, const MUri
   std::basic_string<Ch> s = widen<Ch>(text);
   LedgerMM mm;
   bool nul = text.find('\0') != std::string::npos;
-  for (int e = 0; e < PE_COUNT; e++) {
-    if (entry_needs_z(e) && nul) continue;
-    Parsed<A> p;
-    parse_via<A>(p, e, s, &mm);
-    stats().sub_evaluations++;
-    const char *en = entry_name(e);
-    VF_REQUIRE(p.rc == 0, "%s/%s: rc=%d on a grammar-valid text", A::name(), en, p.rc);
+  auto verify = [&](Parsed<A> &p, const char *en) -> Verdict {
     const auto &u = p.uri;
     const Ch *base = p.first();
     std::string err;
@@ -92,8 +86,36 @@ template <class A> static Verdict check_type(const std::string &text, const MUri
     }
     VF_REQUIRE(i == pr.segs.size(), "%s/%s: %zu path segments, expected %zu", A::name(), en, i, pr.segs.size());
 #undef C02_CHECK
+    return Verdict::pass();
+  };
+  for (int e = 0; e < PE_COUNT; e++) {
+    if (entry_needs_z(e) && nul) continue;
+    Parsed<A> p;
+    parse_via<A>(p, e, s, &mm);
+    stats().sub_evaluations++;
+    const char *en = entry_name(e);
+    VF_REQUIRE(p.rc == 0, "%s/%s: rc=%d on a grammar-valid text", A::name(), en, p.rc);
+    Verdict v = verify(p, en);
+    if (v.kind != Verdict::PASS) return v;
     p.release();
     if (e == PE_SINGLE_MM) VF_REQUIRE(mm.outstanding() == 0 && mm.bad_free == 0, "%s/%s: manager ledger unbalanced", A::name(), en);
+  }
+  // allocation failures: the k-th request of the parse fails once. A parse that reports the failure is out of scope
+  // here; one that still reports success must deliver exactly the same components.
+  for (int k = 1; k <= 24; k++) {
+    Parsed<A> p;
+    mm.reset_counts(); mm.reset_plan(); mm.fail_at = (uint64_t)k;
+    parse_via<A>(p, PE_SINGLE_MM, s, &mm);
+    bool bit = mm.failed > 0;
+    mm.reset_plan();
+    stats().sub_evaluations++;
+    if (!bit) break;
+    if (p.rc != 0) continue;
+    stats().hit("fault_bit_but_success_reported");
+    char en[64];
+    snprintf(en, sizeof en, "ParseSingleUriExMm with allocation %d failing", k);
+    Verdict v = verify(p, en);
+    if (v.kind != Verdict::PASS) return v;
   }
   return Verdict::pass();
 }
